@@ -11,6 +11,7 @@
 """
 from __future__ import annotations
 
+import array
 import ctypes
 import functools
 import hashlib
@@ -51,6 +52,8 @@ CT = {
     "f32": ctypes.c_float, "f64": ctypes.c_double, "byte": ctypes.c_ubyte,
 }
 CT_CODE = {v: k for k, v in CT.items() if k != "byte"}  # c_ubyte is c_uint8
+# array.array type codes (value form "array.array")
+TYPECODE = {"i8": "b", "i16": "h", "i32": "i", "i64": "q", "u8": "B", "u16": "H", "u32": "I", "u64": "Q", "f32": "f", "f64": "d"}
 
 INT_RANGE = {
     "i8": (-(2 ** 7), 2 ** 7 - 1), "i16": (-(2 ** 15), 2 ** 15 - 1), "i32": (-(2 ** 31), 2 ** 31 - 1),
@@ -108,6 +111,8 @@ def dec(j: Any):
     if "C" in j:  # ctypes array: {"C": element code, "v": [encoded python values]}
         vals = [dec(x) for x in j["v"]]
         return (CT[j["C"]] * len(vals))(*vals)
+    if "arr" in j:  # array.array: {"arr": element code, "v": [encoded python values]}
+        return array.array(TYPECODE[j["arr"]], [dec(x) for x in j["v"]])
     if "c" in j:  # scalar ctypes instance: {"c": code, "v": encoded python value}
         return CT[j["c"]](dec(j["v"]))
     if "none" in j:
@@ -145,6 +150,8 @@ def show(v: Any) -> str:
         return f"({v._type_.__name__}*{len(v)})({', '.join(show(x) for x in list(v)[:12])}{', ...' if len(v) > 12 else ''})"
     if isinstance(v, ctypes._SimpleCData):
         return f"{type(v).__name__}({v.value!r})"
+    if isinstance(v, array.array):
+        return f"array('{v.typecode}', {show(list(v))})"
     if isinstance(v, (list, tuple)):
         inner = ", ".join(show(x) for x in v[:12]) + (", ..." if len(v) > 12 else "")
         return ("[%s]" if isinstance(v, list) else "(%s)") % inner
